@@ -69,6 +69,8 @@ def to_pym(e):
         return p.Min(tuple(to_pym(x) for x in e[1:]))
     if k == "max":
         return p.Max(tuple(to_pym(x) for x in e[1:]))
+    if k == "lookup":
+        return p.Lookup(to_pym(e[1]), e[2])          # attribute lookup: y.real
     if k == "tuple":
         return tuple(to_pym(x) for x in e[1:])       # containers of expressions (call arguments, yields)
     if k == "list":
@@ -146,6 +148,8 @@ def to_src(e):
         return f"{name_src(e[1])}({', '.join(parts)})"
     if k == "sub":
         return f"{to_src(e[1])}[{to_src(e[2])}]"
+    if k == "lookup" and e[1][0] == "var":
+        return f"{to_src(e[1])}.{e[2]}"
     if k == "tuple" and len(e) > 2:
         return "(" + ", ".join(to_src(x) for x in e[1:]) + ")"
     if k == "list":
@@ -392,6 +396,11 @@ def ev(e, env, whole=True):
             if isinstance(v, np.ndarray) or isinstance(v, complex) or is_boolish(v):
                 raise Undefined("min-max-operand")
         return min(vals) if k == "min" else max(vals)
+    if k == "lookup":
+        v = ev(e[1], env)
+        if e[2] not in ("real", "imag") or is_boolish(v) or not (is_num(v) or isinstance(v, np.ndarray)):
+            raise Undefined("lookup-of-unsupported-attribute")
+        return getattr(v, e[2])
     if k == "tuple":
         return tuple(ev(x, env) for x in e[1:])
     if k == "list":
@@ -563,6 +572,8 @@ def from_pym(x):
                 return ["msub", from_pym(x.aggregate)] + [from_pym(i) for i in idx]
             idx = idx[0]
         return ["sub", from_pym(x.aggregate), from_pym(idx)]
+    if isinstance(x, p.Lookup):
+        return ["lookup", from_pym(x.aggregate), x.name]
     if isinstance(x, tuple):
         return ["tuple"] + [from_pym(c) for c in x]
     if isinstance(x, list):
